@@ -33,9 +33,24 @@ def handleJT (req : Json) : Except String Json := do
     ("covers_input", coversInput cliques nodes), ("covers_domain", coversDomain attrs nodes),
     ("antichain", antichain nodes), ("is_tree", isTree t), ("rip", rip attrs t),
     ("schedule_complete", scheduleComplete t mp), ("schedule_respects", scheduleRespects t [] mp),
+    ("topo", isTopoSort (messages t) (depEdges t) mp),
     ("all", checkJT attrs cliques t mp)]
   pure (Json.mkObj [("check", chk), ("model_nodes", encCliques mc), ("weight", Codec.enc (weight t)),
     ("bound", Codec.enc (weightBound attrs nodes)), ("greedy", encList greedy),
     ("fill", Codec.enc (fillIn g order).length)])
+
+/-- the stochastic / integer mode of `_make_tree`: the recorded draws of every stochastic run -/
+def handleJTPicks (req : Json) : Except String Json := do
+  let dom ← decDom (← req.getObjVal? "dom")
+  let cliques ← decCliques (← req.getObjVal? "cliques")
+  let runs ← (← (← req.getObjVal? "picks").getArr?).toList.mapM (fun j => (decList j : Except String (List Nat)))
+  let attrs := dom.attrs
+  let det := greedyOrder dom cliques attrs attrs.length
+  let detc := greedyCost dom cliques det
+  let sto := runs.map (fun pk => greedyOrderPicks dom cliques attrs pk)
+  let all := (det, detc) :: sto
+  let chosen := (firstMin all).getD ([], 0)
+  pure (Json.mkObj [("orders", .arr (all.map (fun o => Json.mkObj [("order", encList o.1), ("cost", Codec.enc o.2)])).toArray),
+    ("chosen", encList chosen.1)])
 
 end PGM.Driver
